@@ -34,7 +34,7 @@ def flat_def(rng):
 def generate(rng, tier):
     ndefs = 72 if tier == "quick" else 6000
     # every kind of type is made to occur: definition i must use type WANT[i % len(WANT)] somewhere
-    WANT = ["MIL_T", "F32_T", "F64_T", "F16LE_T", "S32LE_T", "S8_T", "S12_T", "ENUM_T", "BOOL_T", "U32_T", "OC16_T", "SM8_T",
+    WANT = ["CALF32_T", "MIL_T", "F32_T", "F64_T", "F16LE_T", "S32LE_T", "S8_T", "S12_T", "ENUM_T", "BOOL_T", "U32_T", "OC16_T", "SM8_T",
             "U33_T", "U64_T", "S64_T", "S48LE_T", "U72_T", "BOOLSTR_T", "BIN64_T", "BIN72_T", "BIN12_T", "BIN20_T"]
     for i in range(ndefs):
         want = xser.S(WANT[i % len(WANT)])
